@@ -437,3 +437,52 @@ def add_to_condition(cx):
         t = ex.fresh(REF, 'and'); ex.axioms.append(holds(t) == z3.And(holds(a[0].t), holds(a[1].t))); return V('ref', t)
     cx.call('And', mk_and)
     cx.ensures(lambda st, r: holds(st.field(self, 'condition').t) == z3.And(holds(old.t), holds(new.t)))
+
+
+@contract('program/condition/atom_cond.py', 'Atom.reduce', ['C02'])
+def atom_reduce(cx):
+    """a non-reduced atom  p1 cop p2  becomes  r cop 0  where r is a fresh variable aliased to p1 - p2 (returned as (r, p1 - p2) for the caller
+    to assign before the atom is used), or the alias already stored for an EQUAL atom; the meaning of the atom is unchanged."""
+    p1, p2 = cx.real('poly1'), cx.real('poly2'); cop = cx.str('cop')
+    red, hit = cx.bool('is_reduced'), cx.bool('atom_in_store')
+    stored = cx.real('stored_alias_value'); fresh_v = cx.real('new_var_value')
+    me = cx.obj('Atom', poly1=p1, poly2=p2, cop=cop)
+    cx.param(self=me, store=V('storemap', None))
+    cx.call('is_reduced', lambda ex, st, r, a, kw: red)
+    cx.requires(cop_known(cop.t))
+    # store invariant (established by this function's own writes, below): the alias stored for an atom equal to self has the value p1 - p2
+    cx.requires(z3.Implies(hit.t, stored.t == p1.t - p2.t))
+    cx.call('get_unique_var', lambda ex, st, r, a, kw: fresh_v)
+    cx.call('Zero', lambda ex, st, r, a, kw: VN(0))
+    cx.st.vars['$stored_new'] = V('none')
+
+    class StoreHooks:
+        pass
+    orig_contains = None
+
+    def binop(ex, st, op, a, b): return None
+    # membership / lookup / store on the alias store
+    def contains_hook(ex, st, o, i):
+        if o.kind == 'storemap': return VR(stored.t)
+        return None
+    cx.set_hook('index_hook', contains_hook)
+    cx.set_hook('in_hook', lambda ex, st, a, b: hit.t if b.kind == 'storemap' else None)
+
+    def store_hook(ex, st, target_obj, key, v):
+        st.vars['$stored_new'] = v
+        return True
+    cx.set_hook('subscript_store_hook', store_hook)
+    cx.call('copy', lambda ex, st, r, a, kw: r)
+
+    def post(st, r):
+        n1, n2 = toreal(st.field(me, 'poly1')), toreal(st.field(me, 'poly2'))
+        same_meaning = cop_sem(cop.t, n1, n2) == cop_sem(cop.t, p1.t, p2.t)
+        if r.get('empty'):       # no alias assignment returned: either already reduced (unchanged) or a store hit
+            return z3.And(z3.Or(red.t, hit.t), z3.Implies(red.t, z3.And(n1 == p1.t, n2 == p2.t)), same_meaning)
+        pair = r.x['ek'].wrap(r.t[0])
+        new_var, alias = pair.t
+        # meaning of the returned pair: the caller assigns new_var = alias, so the value of new_var IS alias
+        return z3.And(z3.Not(red.t), z3.Not(hit.t), z3.Length(r.t) == 1, toreal(alias) == p1.t - p2.t, n1 == toreal(new_var), n2 == 0,
+                      z3.Implies(toreal(new_var) == toreal(alias), same_meaning),
+                      z3.BoolVal(st['$stored_new'].kind != 'none') if st['$stored_new'].kind == 'none' else toreal(st['$stored_new']) == toreal(new_var))
+    cx.ensures(post)
